@@ -2251,14 +2251,16 @@ theorem freed_step {s : State} (h : PoolInv s) (op : Op) :
 
 /-! ### the content check never fails -/
 
-theorem checkBytes_true (a : Array Nat) (o : Nat) (f : Nat → Nat) : ∀ (n i : Nat),
-    (∀ j, i ≤ j → j < i + n → a[o + j]? = some (f j)) → checkBytes a o f i n = true := by
+theorem checkPat_true (a : Array Nat) (o id : Nat) : ∀ (n i : Nat),
+    (∀ j, i ≤ j → j < i + n → a[o + j]? = some (pat id j)) → checkPat a o id i n = true := by
   intro n; induction n with
   | zero => intro i _; rfl
   | succ n ih =>
     intro i h
-    simp only [checkBytes]
-    rw [if_pos (h i (Nat.le_refl _) (by omega))]
+    simp only [checkPat]
+    have hi := h i (Nat.le_refl _) (by omega)
+    obtain ⟨hlt, e⟩ := Array.getElem?_eq_some_iff.mp hi
+    rw [dif_pos hlt, if_pos e]
     exact ih (i + 1) (fun j h1 h2 => h j (by omega) (by omega))
 
 theorem blockOk_of_pat {m : Mem} {b : Block}
@@ -2269,7 +2271,7 @@ theorem blockOk_of_pat {m : Mem} {b : Block}
   · have := h 0 hpos
     simp [Mem.read, hm] at this
   · simp only
-    apply checkBytes_true
+    apply checkPat_true
     intro j _ hj
     have := h j (by omega)
     simpa [Mem.read, hm] using this
